@@ -218,6 +218,50 @@ def run(rep, tier, rng):
             rep.violation(sig, f"{what} [{len(lst)} cases]", {"spec": c.meta["spec"], "code": c.code})
         else:
             rep.inconcl(f"did not reproduce in isolation: {sig}")
+    # ---- the user's generics carry over unchanged: the derived forms apply to every instantiation the base impl applies to ----
+    acases = []
+    OPS = "::core::ops::"
+    defs = ("pub struct NC;\npub struct A<T>(pub u8, pub ::core::marker::PhantomData<T>);\n"
+            "impl<T> ::core::clone::Clone for A<T> { fn clone(&self) -> Self { A(self.0, ::core::marker::PhantomData) } }\n")
+    for k, op in enumerate(("Sub", "Shl", "BitXor")):
+        fn = C.OPFN[op]
+        bases = {
+            "vv": (f"impl<T> {OPS}{op}<A<T>> for A<T> {{ type Output = A<T>; fn {fn}(self, uo: A<T>) -> A<T> {{ A(self.0 ^ uo.0, ::core::marker::PhantomData) }} }}", f"{op}, {op}Assign"),
+            "rr": (f"impl<T> {OPS}{op}<&A<T>> for &A<T> {{ type Output = A<T>; fn {fn}(self, uo: &A<T>) -> A<T> {{ A(self.0 ^ uo.0, ::core::marker::PhantomData) }} }}", f"{op}, {op}Assign"),
+            "=r": (f"impl<T> {OPS}{op}Assign<&A<T>> for A<T> {{ fn {fn}_assign(&mut self, uo: &A<T>) {{ self.0 ^= uo.0; }} }}", f"{op}"),
+        }
+        for bname, (impl, req) in bases.items():
+            if bname == "=r":
+                probes = [("A<NC>", f"{op}<&'static A<NC>>")]
+            else:
+                probes = [("A<NC>", f"{op}<A<NC>>"), ("A<NC>", f"{op}<&'static A<NC>>"), ("&'static A<NC>", f"{op}<A<NC>>"), ("&'static A<NC>", f"{op}<&'static A<NC>>"),
+                          ("A<NC>", f"{op}Assign<A<NC>>"), ("A<NC>", f"{op}Assign<&'static A<NC>>")]
+            body = " ".join(f"s.push(::dxrt::bool_c(::dxrt::probe_impl!({l}: {OPS}{r})));" for l, r in probes)
+            code = (defs + f"#[::derive_ex::derive_ex({req})]\n{impl}\npub fn run() {{ let mut s = ::std::string::String::new(); {body} "
+                    f'::dxrt::ev!("appl", "b" => s); }}')
+            acases.append(C.Case(f"a{len(acases)}", code, {"what": f"{op} base {bname}", "n": len(probes)}))
+    _, anotes = C.run_cases(acases, "c09a", header=HEADER, batch_size=9)
+    for n in anotes:
+        rep.inconcl(n)
+    for c in acases:
+        if c.status == "inconclusive":
+            continue
+        rep.evaluations += 1
+        rep.count("applicability_programs")
+        if c.status == "compile_fail":
+            who, d = C.blame(c)
+            if who == "harness":
+                rep.inconcl(f"applicability program does not compile outside derive_ex's output: {str(d['message'])[:120]}")
+            else:
+                rep.violation(f"C09|applicability|compile_fail|{c.meta['what']}", f"{c.meta['what']}: {d['code']}: {(d['message'] or '')[:150]}", {"spec": None, "code": c.code})
+            continue
+        ev = next((e for e in c.events if e.get("k") == "appl"), None)
+        if ev is None or len(ev["b"]) != c.meta["n"]:
+            rep.inconcl("no applicability bits in " + c.name)
+        elif "0" in ev["b"]:
+            rep.violation(f"C09|applicability|derived-form-missing-for-non-Clone-parameter|{c.meta['what']}",
+                          f"{c.meta['what']}: the base impl has no bound on T and `A<T>: Clone` for every T, but a derived form does not apply to A<NC> (bits {ev['b']})",
+                          {"spec": None, "code": c.code})
     for c in (cases[0], cases[10], cases[-2]):
         rep.sample({"source": c.code[:700], "events": [e for e in c.events if e.get("k") == "obs"][:2]})
     # canary: an expectation that forgets the clone of a by-reference operand must be flagged
@@ -240,6 +284,10 @@ def run(rep, tier, rng):
 def replay(rep, path):
     j = json.load(open(path))["replay"]
     c = C.compile_single(j["code"], header=HEADER)
+    if j.get("spec") is None:
+        bad = c.status == "compile_fail" or any(e.get("k") == "appl" and "0" in e["b"] for e in c.events)
+        print(f"VIOLATION property=C09 replay={path}" if bad else "replay: no violation")
+        return 1 if bad else 0
     if c.status == "compile_fail" or (c.status == "ok" and check_case(j["spec"], c.events)):
         print(f"VIOLATION property=C09 replay={path}")
         return 1
